@@ -136,6 +136,41 @@ def roundtrip(cls, obj, base_kwargs, kv, kwargs=None, wire_ok=()):
     return 'ok', '', b
 
 
+def cross_decode(cls, obj, base_kwargs, b, kd):
+    """b was produced under another version. If the decoder of version kd ACCEPTS it, decoding,
+    re-encoding and decoding again under kd must give the same value (and stable bytes).
+    Returns None (rejected, or fine) or (status, detail)."""
+    try:
+        v1 = fresh_reader(cls, obj, base_kwargs)
+        v1.read(cutils.BytearrayStream(b), kmip_version=kd)
+    except Exception:   # noqa - not accepted: nothing is demanded
+        return None
+    try:
+        b2 = shapes.encode(v1, kd)
+    except shapes.Runaway:
+        raise
+    except Exception as e:   # noqa
+        return 'accepted-not-reencodable', '%s: %s' % (type(e).__name__, str(e)[:100])
+    try:
+        v2 = fresh_reader(cls, obj, base_kwargs)
+        v2.read(cutils.BytearrayStream(b2), kmip_version=kd)
+        b3 = shapes.encode(v2, kd)
+    except shapes.Runaway:
+        raise
+    except Exception as e:   # noqa
+        return 'accepted-reencoding-undecodable', '%s: %s' % (type(e).__name__, str(e)[:100])
+    if b3 != b2:
+        return 'accepted-bytes-unstable', '%s vs %s' % (b2.hex()[:80], b3.hex()[:80])
+    if own_eq(cls):
+        try:
+            eq = (v1 == v2)
+        except Exception as e:   # noqa
+            return 'accepted-not-idempotent', '__eq__ raised %s' % type(e).__name__
+        if eq is False and not _equal_modulo_absent_lists(v1, v2):
+            return 'accepted-not-idempotent', 'decode(encode(decode(b))) != decode(b)'
+    return 'fine', ''
+
+
 def _on_wire_somewhere(with_field, without_field):
     """The field is version-gated (not silently dropped) only if SOME version writes it."""
     for k2 in KV:
@@ -249,6 +284,29 @@ def check_class(name, part, sweep):
                                    name, ', '.join('%s=%s' % (p, shapes.describe(kw[p]))
                                                    for p in set_params), VNAME[kv], st, detail),
                                {'class': name, 'label': _jl(label), 'version': VNAME[kv]})
+        # accepted byte strings from ANOTHER version's writer (a peer speaking a different version,
+        # a stored encoding): decode-encode-decode must be stable under the accepting version
+        by_bytes = {}
+        for kv in KV:
+            if statuses[kv][2] is not None:
+                by_bytes.setdefault(statuses[kv][2], []).append(kv)
+        for b, srcs in by_bytes.items():
+            for kd in KV:
+                if kd in srcs:
+                    continue
+                res = cross_decode(cls, obj, base, b, kd)
+                part.count('cross_version_decodes')
+                if res is None:
+                    continue
+                part.count('cross_version_accepted')
+                if res[0] != 'fine':
+                    part.violation("%s|%s|%s" % (name, res[0], _pkey(label, kw, base)),
+                                   "%s(%s): the KMIP %s encoding is accepted by the KMIP %s decoder, but "
+                                   "%s (%s)" % (name, ', '.join('%s=%s' % (p, shapes.describe(kw[p]))
+                                                               for p in set_params), VNAME[srcs[0]],
+                                                VNAME[kd], res[0], res[1]),
+                                   {'class': name, 'label': _jl(label), 'version': VNAME[kd],
+                                    'from_version': VNAME[srcs[0]]})
         # a set field must reach the wire under at least one version
         if label[0] == 'sweep-min' and kw[label[1]] != []:
             p = label[1]
@@ -692,9 +750,13 @@ def run(tier, seed):
              "parameter through every admissible candidate with the other fields once absent and "
              "once full; primitives through hand-written boundary menus under three tags; one "
              "request message per operation/shape x header variants; every response a real server "
-             "emitted for a 52-request history. distinct_nontrivial = distinct (class or message "
+             "emitted for a 52-request history; plus, as accepted byte strings, every distinct encoding "
+             "offered to the decoder of every OTHER version (cross_version_decodes) and, where accepted "
+             "(cross_version_accepted), decoded, re-encoded and decoded again. distinct_nontrivial = distinct (class or message "
              "kind, outcome) pairs",
         classes=len(names), successful_roundtrips=ok,
+        cross_version_decodes=rep.counters.get('cross_version_decodes', 0),
+        cross_version_accepted=rep.counters.get('cross_version_accepted', 0),
         refused_encodings=rep.counters.get('status_refused', 0),
         rejected_by_constructor=rep.counters.get('rejected_by_constructor', 0),
         deviation_bound_completed=1, exhaustive=False,
